@@ -84,3 +84,41 @@ Section FieldCodes.
     end.
 
 End FieldCodes.
+
+(* ---------- delivery scenarios on the real DirectTransmission (C19 and C20 drivers) ----------
+   expected: (event id, index of its API key, index of its dataset)
+   arrived : (event id read from the received fields, index of the X-Honeycomb-Team key of the request,
+              index of the dataset in the request URL, the received fields are exactly the event's own) *)
+Record deliv := {
+  d_kind : N;      (* 1 concurrent first events of new destinations, 2 keys sharing host+dataset,
+                      3 / 4 batch refused once with Retry-After, compression off / on *)
+  d_expected : list (N * N * N);
+  d_arrived : list (N * N * N * bool)
+}.
+
+Definition x_id (x : N * N * N) : N := fst (fst x).
+Definition a_id (a : N * N * N * bool) : N := fst (fst (fst a)).
+Definition arrivals_of (i : N) (l : list (N * N * N * bool)) : list (N * N * N * bool) :=
+  filter (fun a => N.eqb (a_id a) i) l.
+
+(* the delivery specification: every event arrives exactly once, under its own key and dataset,
+   with exactly its own fields, and nothing else arrives *)
+Definition deliv_base_codes (d : deliv) : codes :=
+  let arr := d_arrived d in
+  let ex := d_expected d in
+  (if existsb (fun x => match arrivals_of (x_id x) arr with [] => true | _ => false end) ex then [20%N] else [])
+  ++ (if existsb (fun x => (1 <? length (arrivals_of (x_id x) arr))%nat) ex then [21%N] else [])
+  ++ (if existsb (fun x => existsb (fun a => negb (N.eqb (snd (fst (fst a))) (snd (fst x)) && N.eqb (snd (fst a)) (snd x)))
+                                   (arrivals_of (x_id x) arr)) ex then [22%N] else [])
+  ++ (if existsb (fun a => negb (snd a)) arr
+         || existsb (fun a => negb (existsb (fun x => N.eqb (x_id x) (a_id a)) ex)) arr then [23%N] else []).
+
+(* 24: any of the above in a retry scenario, i.e. the re-sent request was not the batch it was given *)
+Definition deliv_codes (d : deliv) : codes :=
+  match deliv_base_codes d with
+  | [] => []
+  | l => l ++ (if N.eqb (d_kind d) 3 || N.eqb (d_kind d) 4 then [24%N] else [])
+  end.
+
+(* the model of a correct transmission: the expected events, each once, untouched *)
+Definition deliv_model (d : deliv) : list (N * N * N * bool) := map (fun x => (x, true)) (d_expected d).
